@@ -48,6 +48,13 @@ def cases(tier, seed):
                     for side in ("below", "above"):
                         out.append({"kind": "cell", "ff": ff, "group": g, "pos": pos, "side": side,
                                     "seed": seed * 1009 + rep * 100000 + len(out)})
+    # PARSE only: the titratable group sits in a chain-terminal residue whose terminus is neutralised by option
+    for rep in range(1 if tier == "quick" else 80):
+        for g in GROUPS:
+            for pos, flag in (("N", "--neutraln"), ("C", "--neutralc")):
+                for side in ("below", "above"):
+                    out.append({"kind": "cell", "ff": "PARSE", "group": g, "pos": pos, "side": side, "neutral": flag,
+                                "seed": seed * 1019 + rep * 100000 + len(out)})
     # residues that share name, number and chain and differ only by insertion code (52, 52A, 52B), pKa sides mixed
     for rep in range(1 if tier == "quick" else 60):
         for ff in common.FFS:
@@ -63,10 +70,12 @@ def cases(tier, seed):
     return out
 
 
-def can_parameterise(model, tr, state_patch, opts_ff):
+def can_parameterise(model, tr, state_patch, opts_ff, neutral=None):
     """Does the force field (independent model) have a row for every atom of the titrated state at this position?"""
     class O:
-        neutraln = neutralc = assign_only = False
+        neutraln = neutral == "--neutraln"
+        neutralc = neutral == "--neutralc"
+        assign_only = False
     titr = (state_patch,)
     names_needed, choose = states.expected_atoms(tr, set(), O, False, titr)
     # the state name: evaluate with the atom set the topology defines
@@ -118,6 +127,8 @@ def judge_groups(res, spec, truth, items, groups, r, ph, ff):
         residue = by_k.get(g["k"])
         pos = "N" if tr["pos"] == "NC" else tr["pos"]
         gname = g["group"]
+        if (gname, spec.get("neutral")) in (("N+", "--neutraln"), ("C-", "--neutralc")):
+            continue          # that terminus is neutral by option, whatever its pKa
         target, titr_side = TITR[gname]
         want_titrated = g["side"] == titr_side
         res.count("groups_checked")
@@ -129,7 +140,7 @@ def judge_groups(res, spec, truth, items, groups, r, ph, ff):
         if residue is None:
             res.violate(f"titration/residue-lost/{gname}@{pos}/{ff}", "residue not found in the result", **wit)
             continue
-        supported, ffn = can_parameterise(model, tr, target, ff) if want_titrated else (True, None)
+        supported, ffn = can_parameterise(model, tr, target, ff, spec.get("neutral")) if want_titrated else (True, None)
         expect = target if (want_titrated and supported) else "default"
         obs = observed_state(gname, residue)
         dropped = [a.name for a in residue.atoms if id(a) not in written]
@@ -205,7 +216,10 @@ def run_cell(spec, res):
         res.cell(g["group"], "N" if truth[g["k"]]["pos"] == "NC" else truth[g["k"]]["pos"], spec["ff"], g["side"])
     STUB["table"] = rows
     STUB["titration_log"] = []
-    opts = [f"--ff={spec['ff']}", "--titration-state-method=propka", f"--with-ph={ph}"]
+    opts = [f"--ff={spec['ff']}", "--titration-state-method=propka", f"--with-ph={ph}"] + \
+        ([spec["neutral"]] if spec.get("neutral") else [])
+    if spec.get("neutral"):
+        res.count("neutral_terminus_cells")
     try:
         r = pipeline.run(text, opts, workname="c06")
     finally:
